@@ -35,13 +35,22 @@ def flat_subm(name):
     return arr
 
 
-def certify(a, b, kind, set_name, gpo, gpe, tgpe):
-    """-> dict(cols, opt, m_same, m_diff, junctions, opt_free) ; cols: 0 match, 1 gap in a, 2 gap in b"""
+def flat_from_list(vals):
+    arr = (ctypes.c_double * 529)()
+    for i, v in enumerate(vals[:529]):
+        arr[i] = v
+    return arr
+
+
+def certify(a, b, kind, set_name, gpo, gpe, tgpe, subm_flat=None):
+    """-> dict(cols, opt, m_same, m_diff, junctions, opt_free) ; cols: 0 match, 1 gap in a, 2 gap in b.
+    subm_flat: 529 values (23x23, row major) to use instead of the documented set `set_name`."""
     ea, eb = encode(a, kind), encode(b, kind)
     out = (ctypes.c_uint8 * (len(a) + len(b) + 2))()
     n = ctypes.c_int(0)
     info = (ctypes.c_double * 5)()
-    rc = lib().c07_certify(ea, len(ea), eb, len(eb), flat_subm(set_name), ctypes.c_double(gpo), ctypes.c_double(gpe),
+    rc = lib().c07_certify(ea, len(ea), eb, len(eb), flat_from_list(subm_flat) if subm_flat is not None else flat_subm(set_name),
+                           ctypes.c_double(gpo), ctypes.c_double(gpe),
                            ctypes.c_double(tgpe), out, ctypes.byref(n), info)
     if rc != 0:
         return None
@@ -76,9 +85,9 @@ def rows_from_cols(a, b, cols):
 
 # ------------------------------------------------------------------ brute force (self test of the oracle's model)
 
-def score_alignment(ra, rb, kind, set_name, gpo, gpe, tgpe, tc):
+def score_alignment(ra, rb, kind, set_name, gpo, gpe, tgpe, tc, subm_flat=None):
     """Score one explicit alignment (two gapped rows) by the stated model; independent of the DP recurrences."""
-    sub = params_model.SETS[set_name]["subm"]
+    sub = params_model.SETS[set_name]["subm"] if subm_flat is None else [subm_flat[i * 23:(i + 1) * 23] for i in range(23)]
     tab = DNA_CODE if kind == "dna" else PROT_CODE
     L = len(ra)
     cols = [0 if (x != "-" and y != "-") else (1 if x == "-" else 2) for x, y in zip(ra, rb)]
